@@ -1257,6 +1257,8 @@ def _slice_bounds(ctx, sl, n):
 
 def get_item(ctx, o, k):
     from .interp import SliceV
+    if isinstance(k, Ext) and isinstance(k.obj, slice):
+        k = SliceV(k.obj.start, k.obj.stop, k.obj.step)
     if isinstance(o, Ref):
         c = ctx.cell(o)
         if isinstance(c, HObj):
